@@ -18,7 +18,6 @@ import (
 	"github.com/cosi-project/runtime/pkg/controller/runtime/internal/adapter"
 	"github.com/cosi-project/runtime/pkg/controller/runtime/internal/controllerstate"
 	"github.com/cosi-project/runtime/pkg/controller/runtime/internal/dependency"
-	"github.com/cosi-project/runtime/pkg/controller/runtime/internal/reduced"
 	"github.com/cosi-project/runtime/pkg/controller/runtime/metrics"
 	"github.com/cosi-project/runtime/pkg/controller/runtime/options"
 	"github.com/cosi-project/runtime/pkg/resource"
@@ -37,7 +36,7 @@ type Adapter struct {
 
 	backoff *backoff.ExponentialBackOff
 
-	watchFilters map[watchKey]reduced.WatchFilter
+	watchInputs map[watchKey][]controller.Input
 
 	// output tracker (optional)
 	//
@@ -167,7 +166,7 @@ func (adapter *Adapter) UpdateInputs(deps []controller.Input) error {
 				return fmt.Errorf("error deleting controller dependency: %w", err)
 			}
 
-			adapter.deleteWatchFilter(dbDeps[j].Namespace, dbDeps[j].Type)
+			adapter.deleteWatchInput(dbDeps[j])
 
 			j++
 		}
@@ -177,9 +176,7 @@ func (adapter *Adapter) UpdateInputs(deps []controller.Input) error {
 				return fmt.Errorf("error adding controller dependency: %w", err)
 			}
 
-			if deps[i].Kind == controller.InputDestroyReady {
-				adapter.addWatchFilter(deps[i].Namespace, deps[i].Type, reduced.FilterDestroyReady)
-			}
+			adapter.addWatchInput(deps[i])
 
 			if err := adapter.watchFunc(deps[i].Namespace, deps[i].Type); err != nil {
 				return fmt.Errorf("error watching resources: %w", err)
